@@ -8,12 +8,13 @@
                      case f, ok := <-c:                                 WRecv / WRecvClosed
                          if ok { if err := emit(f, g); err != nil { cause = err; cancel() } }    Call
                          else  { return } } }
-       producer: for _, f := range m { c <- f }                         Send  (no select: Fixed = FALSE)
+       producer: for _, f := range m { select { case c <- f:            Send
+                                                  case <-ctx.Done(): break feeding } }   PDone (only when Fixed)
                  close(c); wg.Wait(); return cause                      Close, Wait
 
-   Fixed = FALSE is the code as it stands: after cancel() every worker may leave through ctx.Done while the
+   Fixed = FALSE (cfg.fixed) is the code before commit 3f18754 ("Before" variant): after cancel() every worker may leave through ctx.Done while the
    producer still has features to send; once the buffer is full the producer blocks for ever.
-   Fixed = TRUE is the protocol after fixes/C28-memsource-select-done.diff: the producer selects on ctx.Done()
+   Fixed = TRUE is the code as it stands, after fixes/C28-memsource-select-done.diff: the producer selects on ctx.Done()
    and leaves the loop (labelled break). *)
 EXTENDS Integers, Sequences, FiniteSets, TLC, Json, StreamsBase
 CONSTANTS MaxG, SizeVecs, MaxFail, Modes,
